@@ -65,7 +65,13 @@ fn make_layer(layer: &Path, outside: &Path, assign: [usize; 4]) {
         let p = layer.join(sub);
         match assign[i] {
             0 => {}
-            1 => std::fs::create_dir(&p).unwrap(),
+            1 => {
+                std::fs::create_dir(&p).unwrap();
+                // a nested directory called like one of the four (lib/pkgconfig, bin/lib, ...): only the
+                // layer's own top-level sub-directories count
+                std::fs::create_dir(p.join(SUBDIRS[(i + 2) % 4])).unwrap();
+                std::fs::create_dir(p.join("pkgconfig")).ok();
+            }
             2 => std::fs::write(&p, b"plain").unwrap(),
             3 => std::os::unix::fs::symlink(outside.join("tdir"), &p).unwrap(),
             4 => std::os::unix::fs::symlink(outside.join("tfile"), &p).unwrap(),
@@ -351,7 +357,7 @@ pub fn run(args: &Args) {
     rep.cov("fixpoint_cycles_run", fix);
     rep.cov("distinct_nontrivial", outcomes.len() as u64);
     rep.cov("distinct_outcomes", outcomes.len() as u64);
-    rep.cov("rule", "all 6^4 assignments of {absent, dir, file, symlink->dir, symlink->file, dangling symlink} to bin/lib/include/pkgconfig, plus two kinds that fail to resolve with ELOOP / ENOTDIR (quick: all 4^4 over {absent, dir, ELOOP, ENOTDIR}; thorough: all 8^4) x 10 explicit envs (two with a non-empty per-process directory, three whose value is exactly the layer's own bin/lib path) on the same variables x 4 start envs (unset, set, empty, beginning and ending with the separator) x 4 query scopes, each read by the real read_from_layer_dir and compared with the reference (apply_to_empty must equal apply on the empty environment); per assignment x explicit env, read->write cycles by 6 routes (LayerEnv, cached_layer keep+read_env/write_env, handle_layer Keep, handle_layer Update with the default impl, the last two also on a restored layer whose toml has no [types]) must leave the env directories unchanged, and read -> insert (3 entries on variables that have implicit values) -> write must add exactly the inserted entry; layer directory spellings: all 3^4 assignments over {absent, dir, link->dir} x 7 spellings of the layer path (non-UTF-8 component, trailing slash, ./.. segments, symlinked parent, space/colon/'=', a \\\\?\\ component, U+FFFD/non-ASCII) x 3 scopes x 4 start envs: the implicit value is the handed-over path joined with the sub-directory, byte for byte. distinct_nontrivial = distinct (scope, resulting environment) outcomes with the scratch path normalised");
+    rep.cov("rule", "all 6^4 assignments of {absent, dir (holding nested directories called like the four, e.g. lib/pkgconfig), file, symlink->dir, symlink->file, dangling symlink} to bin/lib/include/pkgconfig, plus two kinds that fail to resolve with ELOOP / ENOTDIR (quick: all 4^4 over {absent, dir, ELOOP, ENOTDIR}; thorough: all 8^4) x 10 explicit envs (two with a non-empty per-process directory, three whose value is exactly the layer's own bin/lib path) on the same variables x 4 start envs (unset, set, empty, beginning and ending with the separator) x 4 query scopes, each read by the real read_from_layer_dir and compared with the reference (apply_to_empty must equal apply on the empty environment); per assignment x explicit env, read->write cycles by 6 routes (LayerEnv, cached_layer keep+read_env/write_env, handle_layer Keep, handle_layer Update with the default impl, the last two also on a restored layer whose toml has no [types]) must leave the env directories unchanged, and read -> insert (3 entries on variables that have implicit values) -> write must add exactly the inserted entry; layer directory spellings: all 3^4 assignments over {absent, dir, link->dir} x 7 spellings of the layer path (non-UTF-8 component, trailing slash, ./.. segments, symlinked parent, space/colon/'=', a \\\\?\\ component, U+FFFD/non-ASCII) x 3 scopes x 4 start envs: the implicit value is the handed-over path joined with the sub-directory, byte for byte. distinct_nontrivial = distinct (scope, resulting environment) outcomes with the scratch path normalised");
     rep.cov("bound", json!({"assignments": assigns.len(), "explicit_envs": 10, "start_envs": 4, "scopes": 4, "cycles": cycles, "routes": 6}));
     rep.cov("exhaustive", true);
     rep.sample(json!({"assignment": {"bin": "link->dir", "lib": "file", "include": "dir", "pkgconfig": "dangling"}, "explicit": "PATH append+delim in build", "scope": "Build", "start": "all five variables set"}));
